@@ -62,20 +62,25 @@ def gen_program(rng, kind=None):
     return {"kind": kind, "p": rng.randint(0, n), "n": n, # (EOFError, the last entry, is the recorded finding: kept rare, and left to the plain "body" kind, where no 15 s wait for a warning is involved)
             "exc": (len(EXCS) - 1) if (rng.random() < 0.03 and kind != "body_peer_dropped") else rng.randrange(len(EXCS) - 1),
             "dropped": rng.random() < 0.4,
-            "own_exec_channel": rng.random() < 0.35, "deep": rng.choice((0, 0, 0, 4, 130, 300)),
+            "own_exec_channel": rng.random() < 0.35, "deep": rng.choice((0, 0, 0, 4, 130, 300)), "other_source_meanwhile": rng.random() < 0.4,
             "consume": rng.choice(("receive", "waitclose_first", "concurrent")), "siblings": rng.choice((0, 2, 3))}
 
 
-def body_source(hid, p, exc, deep=0):
+OTHER_SRC = "\n".join(f"x{i} = 'OTHER-PROGRAM-SOURCE-LINE {i}'" for i in range(1, 15)) + "\nchannel.send('other program done')\n"
+
+
+def body_source(hid, p, exc, deep=0, wait_go=False):
     """-> (source, line of the failing statement); with deep, that statement sits `deep` frames below the body's top level
     (the traceback text must still name it)"""
     name, ctor, _msg = EXCS[exc]
     lines = ["class MyRemoteFailure(Exception):", "    pass", f"for i in range({p}):", f"    channel.send(({hid}, i))"]
     failing = "1 / 0" if ctor is None else f"raise {ctor}"
+    if wait_go and not deep:
+        lines.append("channel.receive()")
     if deep:
         lines += ["def _deep(n):", "    if n <= 0:", "        " + failing]
         errline = len(lines)
-        lines += ["    return _deep(n - 1)", f"_deep({deep})"]
+        lines += ["    return _deep(n - 1)"] + (["channel.receive()"] if wait_go else []) + [f"_deep({deep})"]
     else:
         lines.append(failing)
         errline = len(lines)
@@ -241,8 +246,17 @@ def run_program(res: Result, lab, prog, label, hid):
                 if other:
                     real_stderr.write("\n".join(other[:20]) + "\n")
         elif kind == "body":
-            src, errline = body_source(hid, p, exc, deep=prog.get("deep", 0))
+            meanwhile = bool(prog.get("other_source_meanwhile")) and prog["consume"] == "receive"
+            src, errline = body_source(hid, p, exc, deep=prog.get("deep", 0), wait_go=meanwhile)
             ch = gw.remote_exec(src)
+            if meanwhile:
+                # while this body is still running the worker executes another source (same pseudo file name, other text);
+                # only then does the body go on to fail
+                ob = gw.remote_exec(OTHER_SRC)
+                ob.receive(15)
+                ob.waitclose(15)
+                ch.send("go")
+                res.count("bodies_failing_after_another_source_ran")
             got, first_error, terminal = [], None, None
             if prog["consume"] == "waitclose_first":
                 try:
@@ -308,6 +322,8 @@ def run_program(res: Result, lab, prog, label, hid):
                 res.violation(m("failure-not-reported-as-remoteerror"), f"{label}: {first_error!r} terminal={terminal}")
             else:
                 check_remote_error_text(res, str(first_error), exc, label, m, where_line=errline)
+                if "OTHER-PROGRAM-SOURCE" in str(first_error):
+                    res.violation(m("remoteerror-quotes-another-programs-source"), f"{label}: {str(first_error)[-400:]!r}")
                 total = nremote + (1 if prog["consume"] == "waitclose_first" else 0)
                 if total != 1:
                     res.violation(m("remoteerror-not-exactly-once"), f"{label}: {total} deliveries")
